@@ -145,12 +145,17 @@ def _const_bytes(v):
     return bytes(out) if walk(t) else None
 
 
-def strip_model(X, obj, chars):
+def strip_model(X, obj, chars, side='both'):
     """x.strip(chars): result r with x == a ++ r ++ b where a, b consist of strip characters only,
     and r neither starts nor ends with one.  Encoded with fresh a, r, b (existential witnesses)."""
     sort = obj.t.sort()
     a, r, b = X.fresh(sort, 'strip_l'), X.fresh(sort, 'strip_m'), X.fresh(sort, 'strip_r')
     X.assume(obj.t == z3.Concat(a, r, b))
+    # lstrip / rstrip: nothing is taken from the other end, and only the stripped end of the result is constrained
+    if side == 'left':
+        X.assume(z3.Length(b) == 0)
+    if side == 'right':
+        X.assume(z3.Length(a) == 0)
     i = z3.Int(f'strip_i!{X.n_fresh}')
     if _is(obj, VStr):
         cs = [z3.StringVal(c) for c in chars]
@@ -162,8 +167,9 @@ def strip_model(X, obj, chars):
         at = lambda s, k: s[k]                                # noqa: E731
     X.assume(z3.ForAll([i], z3.Implies(z3.And(0 <= i, i < z3.Length(a)), in_set(at(a, i)))))
     X.assume(z3.ForAll([i], z3.Implies(z3.And(0 <= i, i < z3.Length(b)), in_set(at(b, i)))))
-    X.assume(z3.Implies(z3.Length(r) > 0, z3.And(z3.Not(in_set(at(r, z3.IntVal(0)))),
-                                                 z3.Not(in_set(at(r, z3.Length(r) - 1))))))
+    ends = ([z3.Not(in_set(at(r, z3.IntVal(0))))] if side != 'right' else []) + \
+        ([z3.Not(in_set(at(r, z3.Length(r) - 1)))] if side != 'left' else [])
+    X.assume(z3.Implies(z3.Length(r) > 0, z3.And(*ends)))
     return type(obj)(r)
 
 
@@ -222,8 +228,6 @@ def call_method(X, obj, name, args, kwargs):
         if name == 'endswith':
             return VBool(z3.SuffixOf(args[0].t, obj.t))
         if name == 'strip' or name == 'lstrip' or name == 'rstrip':
-            if name != 'strip':
-                raise Unsupported(name)
             if args:
                 chars = _const_bytes(args[0])
                 if chars is None:
@@ -232,7 +236,7 @@ def call_method(X, obj, name, args, kwargs):
                 if _is(obj, VStr):
                     raise Unsupported('str.strip() whitespace set')
                 chars = WS_BYTES
-            return strip_model(X, obj, chars)
+            return strip_model(X, obj, chars, {'strip': 'both', 'lstrip': 'left', 'rstrip': 'right'}[name])
         if name == 'split':
             return split_model(X, obj, args, kwargs)
         if name == 'find':
